@@ -59,7 +59,7 @@ def run_cases(kvh, cases, env=None, timeout=900, par=None):
                                                             c._ev, c.jitter, " ".join(seqs))
         if c.infiles is None:
             inp = base + ".in"
-            with open(inp, "w") as f:
+            with open(inp, "w", encoding=getattr(c, "enc", None)) as f:
                 f.write(c.intext if c.intext is not None else gen.fasta_text(c.records))
             files = [inp]
         else:
@@ -67,7 +67,7 @@ def run_cases(kvh, cases, env=None, timeout=900, par=None):
             for k, txt in enumerate(c.infiles):
                 p = "%s.in%d" % (base, k)
                 with open(p, "wb") as f:
-                    f.write(txt if isinstance(txt, bytes) else txt.encode())
+                    f.write(txt if isinstance(txt, bytes) else txt.encode(getattr(c, "enc", None) or "utf-8"))
                 files.append(p)
         return "run %s %s %d %s %s %s %d %s %d %s" % (c._out, c.fmt, c.type, _pen(c.gpo), _pen(c.gpe), _pen(c.tgpe),
                                                      c.threads, c._ev, c.jitter, " ".join(files))
@@ -104,7 +104,7 @@ def run_cases(kvh, cases, env=None, timeout=900, par=None):
                 c.kv = {k: int(v) for k, v in kv.items()}
                 c.rc = 0 if (c.kv["read"] == 0 and c.kv["run"] == 0 and c.kv["write"] == 0) else 1
                 if c.rc == 0 and os.path.exists(c._out):
-                    c.outtext = open(c._out, errors="replace").read()
+                    c.outtext = open(c._out, encoding=getattr(c, "enc", None), errors="replace").read()
             if c.want_ev and c._ev != "-" and os.path.exists(c._ev):
                 c.events = open(c._ev).read().split("\n")
             for p in (getattr(c, "_out", None), c._ev):
